@@ -603,8 +603,13 @@ func vstoreCase(tr *vtrace, r *vrng, doorkeeper, loading, focus bool) {
 		case x < 80:
 			if len(v.pending) > 0 {
 				i := 0
-				if r.chance(35) {
-					i = r.intn(len(v.pending)) // another client's event overtakes
+				if r.chance(35) && !vpoolMode {
+					// another client's event overtakes.  (Not with the entry pool on: an UPDATE that overtakes the NEW event of
+					// its entry and finds the deadline passed recycles the entry, and the stale NEW - insert events carry no
+					// hash re-check - is then applied to the next incarnation: the misapplication the README documents.  With
+					// lifetimes that are over on arrival in the histories it corrupts a policy list within a few thousand cases
+					// and the maintenance side panics; see DESIGN section 7 (xi) and (xiii).)
+					i = r.intn(len(v.pending))
 				}
 				v.sink(i, rndv())
 			}
